@@ -14,6 +14,11 @@
                                        per chunk: number it, Write     EChunk    (numbering happens under the instance
                                                                                   lock; one Write per chunk on the one
                                                                                   TCP connection)
+                                       (the send fails: ctx done, encode,
+                                        sign or write error)           EFail     (before the first chunk: the number
+                                                                                  taken by newRequestMessage is used up
+                                                                                  and never written -- recorded as a
+                                                                                  GAP entry; later: nothing happens)
                                        instance.Unlock()               EUnlockI
                                        pendingReq.Done()               EDone
      renewer  Renew / scheduleRenewal: (read the instance to renew)    ERenStart
@@ -39,7 +44,8 @@ Open Scope Z_scope.
 Definition tid := nat.
 Definition iid := nat.
 
-Inductive owner := OwnS (t : tid) | OwnR.
+(* OwnGap t: not a chunk -- the sequence number that sender t took and never wrote (failed before its first chunk) *)
+Inductive owner := OwnS (t : tid) | OwnR (n : nat) | OwnGap (t : tid).
 
 Record chunk := Chunk {
   c_seq : Z; c_req : Z; c_final : bool; c_opn : bool;
@@ -78,8 +84,9 @@ Record st := St {
   iseq : iid -> Z;                   (* channelInstance.sequenceNumber *)
   ilock : iid -> option owner;       (* channelInstance.Mutex *)
   next_req : Z;
-  wire_rev : list chunk;
-  renewals : nat }.                  (* ghost: completed ERenInstall steps *)
+  wire_rev : list chunk;             (* newest first; includes the GAP entries (see visible) *)
+  renewals : nat;                    (* ghost: completed ERenInstall steps *)
+  ropn : nat }.                      (* ghost: OPN requests written so far *)
 
 Definition updI {A} (f : iid -> A) (k : iid) (v : A) : iid -> A := fun x => if Nat.eqb x k then v else f x.
 
@@ -90,25 +97,26 @@ Fixpoint upd_nth {A} (l : list A) (n : nat) (x : A) : list A :=
   | h :: t, S n' => h :: upd_nth t n' x
   end.
 
-Definition set_ss s v := St v (r s) (gate s) (pending s) (active s) (ninst s) (iseq s) (ilock s) (next_req s) (wire_rev s) (renewals s).
-Definition set_r s v := St (ss s) v (gate s) (pending s) (active s) (ninst s) (iseq s) (ilock s) (next_req s) (wire_rev s) (renewals s).
-Definition set_gate s v := St (ss s) (r s) v (pending s) (active s) (ninst s) (iseq s) (ilock s) (next_req s) (wire_rev s) (renewals s).
-Definition set_pending s v := St (ss s) (r s) (gate s) v (active s) (ninst s) (iseq s) (ilock s) (next_req s) (wire_rev s) (renewals s).
-Definition set_active s v := St (ss s) (r s) (gate s) (pending s) v (ninst s) (iseq s) (ilock s) (next_req s) (wire_rev s) (S (renewals s)).
-Definition set_ninst s v := St (ss s) (r s) (gate s) (pending s) (active s) v (iseq s) (ilock s) (next_req s) (wire_rev s) (renewals s).
-Definition set_iseq s v := St (ss s) (r s) (gate s) (pending s) (active s) (ninst s) v (ilock s) (next_req s) (wire_rev s) (renewals s).
-Definition set_ilock s v := St (ss s) (r s) (gate s) (pending s) (active s) (ninst s) (iseq s) v (next_req s) (wire_rev s) (renewals s).
-Definition set_next_req s v := St (ss s) (r s) (gate s) (pending s) (active s) (ninst s) (iseq s) (ilock s) v (wire_rev s) (renewals s).
-Definition set_wire s v := St (ss s) (r s) (gate s) (pending s) (active s) (ninst s) (iseq s) (ilock s) (next_req s) v (renewals s).
+Definition set_ss s v := St v (r s) (gate s) (pending s) (active s) (ninst s) (iseq s) (ilock s) (next_req s) (wire_rev s) (renewals s) (ropn s).
+Definition set_r s v := St (ss s) v (gate s) (pending s) (active s) (ninst s) (iseq s) (ilock s) (next_req s) (wire_rev s) (renewals s) (ropn s).
+Definition set_gate s v := St (ss s) (r s) v (pending s) (active s) (ninst s) (iseq s) (ilock s) (next_req s) (wire_rev s) (renewals s) (ropn s).
+Definition set_pending s v := St (ss s) (r s) (gate s) v (active s) (ninst s) (iseq s) (ilock s) (next_req s) (wire_rev s) (renewals s) (ropn s).
+Definition set_ninst s v := St (ss s) (r s) (gate s) (pending s) (active s) v (iseq s) (ilock s) (next_req s) (wire_rev s) (renewals s) (ropn s).
+Definition set_iseq s v := St (ss s) (r s) (gate s) (pending s) (active s) (ninst s) v (ilock s) (next_req s) (wire_rev s) (renewals s) (ropn s).
+Definition set_ilock s v := St (ss s) (r s) (gate s) (pending s) (active s) (ninst s) (iseq s) v (next_req s) (wire_rev s) (renewals s) (ropn s).
+Definition set_next_req s v := St (ss s) (r s) (gate s) (pending s) (active s) (ninst s) (iseq s) (ilock s) v (wire_rev s) (renewals s) (ropn s).
+Definition set_ropn s v := St (ss s) (r s) (gate s) (pending s) (active s) (ninst s) (iseq s) (ilock s) (next_req s) (wire_rev s) (renewals s) v.
+Definition set_active s v := St (ss s) (r s) (gate s) (pending s) v (ninst s) (iseq s) (ilock s) (next_req s) (wire_rev s) (S (renewals s)) (ropn s).
+Definition set_wire s v := St (ss s) (r s) (gate s) (pending s) (active s) (ninst s) (iseq s) (ilock s) (next_req s) v (renewals s) (ropn s).
 
 (* a channel after Open: one instance whose counter is seq0 *)
 Definition init (seq0 req0 : Z) : st :=
-  St [] RIdle false 0%nat 0%nat 1%nat (fun _ => seq0) (fun _ => None) req0 [] 0%nat.
+  St [] RIdle false 0%nat 0%nat 1%nat (fun _ => seq0) (fun _ => None) req0 [] 0%nat 0%nat.
 
 Inductive ev :=
 | ESpawn (n : nat)
 | EGate (t : tid) | EActive (t : tid) | EId (t : tid) | ELockI (t : tid) | EChunk (t : tid)
-| EUnlockI (t : tid) | EDone (t : tid)
+| EFail (t : tid) | EUnlockI (t : tid) | EDone (t : tid)
 | ERenStart | ERenGate | ERenDrain | ERenLock | ERenCopy | ERenOpn | ERenInstall | ERenFail | ERenUnlock.
 
 (* number one chunk on instance i and write it *)
@@ -147,6 +155,13 @@ Definition step (s : st) (e : ev) : option st :=
                                         let final := Nat.eqb k n in
                                         Some (emit s i id final false (OwnS t), if final then SWritten i else SWriting n i id (S k))
                                     | _ => None end)
+  | EFail t => sstep s t (fun pc => match pc with
+                                   | SWriting n i id k =>
+                                       Some (match k with
+                                             | O => emit s i id true false (OwnGap t)   (* the number is gone *)
+                                             | S _ => s
+                                             end, SWritten i)
+                                   | _ => None end)
   | EUnlockI t => sstep s t (fun pc => match pc with
                                       | SWritten i => Some (set_ilock s (updI (ilock s) i None), SUnlocked)
                                       | _ => None end)
@@ -158,7 +173,7 @@ Definition step (s : st) (e : ev) : option st :=
   | ERenDrain => match r s with RGate i => if Nat.eqb (pending s) 0%nat then Some (set_r s (RDrained i)) else None | _ => None end
   | ERenLock => match r s with
                 | RDrained i => match ilock s i with
-                                | None => Some (set_r (set_ilock s (updI (ilock s) i (Some OwnR))) (ROldLocked i))
+                                | None => Some (set_r (set_ilock s (updI (ilock s) i (Some (OwnR 0)))) (ROldLocked i))
                                 | Some _ => None
                                 end
                 | _ => None end
@@ -169,7 +184,7 @@ Definition step (s : st) (e : ev) : option st :=
                     Some (set_r (set_next_req (set_iseq (set_ninst s (S j)) (updI (iseq s) j (iseq s i))) id) (RCopied i j id))
                 | _ => None end
   | ERenOpn => match r s with
-               | RCopied i j id => Some (set_r (emit s j id true true OwnR) (ROpnSent i j))
+               | RCopied i j id => Some (set_ropn (set_r (emit s j id true true (OwnR (ropn s))) (ROpnSent i j)) (S (ropn s)))
                | _ => None end
   | ERenInstall => match r s with
                    | ROpnSent i j => Some (set_r (set_active s j) (RInstalled i j))
@@ -195,12 +210,15 @@ Definition reachableP (P : st -> ev -> bool) (seq0 req0 : Z) (s : st) : Prop :=
   exists evs, runP P evs (init seq0 req0) = Some s.
 Definition reachable := reachableP anyev.
 
-Definition wire (s : st) : list chunk := rev (wire_rev s).
+(* what is really on the connection: everything but the GAP entries *)
+Definition visible (c : chunk) : bool := match c_owner c with OwnGap _ => false | _ => true end.
+Definition wire_rev_visible (s : st) : list chunk := filter visible (wire_rev s).
+Definition wire (s : st) : list chunk := rev (wire_rev_visible s).
 
 (* ---- the two halves of the property, as executable predicates on the wire (newest chunk first) ---- *)
 
 Definition owner_eqb (a b : owner) : bool :=
-  match a, b with OwnS x, OwnS y => Nat.eqb x y | OwnR, OwnR => true | _, _ => false end.
+  match a, b with OwnS x, OwnS y => Nat.eqb x y | OwnR x, OwnR y => Nat.eqb x y | OwnGap x, OwnGap y => Nat.eqb x y | _, _ => false end.
 
 (* every chunk carries the successor of the number of the chunk written before it *)
 Fixpoint consecutive_rev (w : list chunk) : bool :=
@@ -209,11 +227,22 @@ Fixpoint consecutive_rev (w : list chunk) : bool :=
   | _ => true
   end.
 
-(* a chunk that follows a non-final chunk belongs to the same message *)
+(* every chunk either continues the message of the chunk written just before it or starts a message of which
+   nothing has been written before: the chunks of one message are never interleaved with chunks of another (a message
+   may be abandoned after some chunks when its send fails; it is then never resumed) *)
 Fixpoint contiguous_rev (w : list chunk) : bool :=
   match w with
   | c :: ((p :: _) as rest) =>
-      (c_final p || (owner_eqb (c_owner c) (c_owner p) && (c_req c =? c_req p))) && contiguous_rev rest
+      (owner_eqb (c_owner c) (c_owner p) || negb (existsb (fun q => owner_eqb (c_owner q) (c_owner c)) rest))
+      && contiguous_rev rest
+  | _ => true
+  end.
+
+(* the runs on which no send fails before its first chunk is written *)
+Definition early_fail (pc : spc) : bool := match pc with SWriting _ _ _ O => true | _ => false end.
+Definition no_early_fail (s : st) (e : ev) : bool :=
+  match e with
+  | EFail t => match nth_error (ss s) t with Some pc => negb (early_fail pc) | None => true end
   | _ => true
   end.
 
